@@ -12,6 +12,7 @@ import (
 	"runtime/pprof"
 	"sort"
 	"strings"
+	"verif/ref/asm"
 
 	g "github.com/bobertlo/gmars"
 
@@ -315,6 +316,7 @@ func main() {
 	if os.Getenv("VERIF_COLDSTART") == "1" {
 		coldStartChildMain()
 	}
+	asm.Legacy = os.Getenv("VERIF_LEGACY") == "1"
 	var c Ctx
 	var out, caseLog string
 	flag.StringVar(&c.Prop, "prop", "", "property id")
